@@ -2604,11 +2604,10 @@ class Tree:
         """
         Call into the fast but limited C implementation of the newick conversion.
         """
-        root_time = max(1, self.time(root))
-        max_label_size = math.ceil(math.log10(self.tree_sequence.num_nodes))
-        single_node_size = (
-            5 + max_label_size + math.ceil(math.log10(root_time)) + precision
-        )
+        # Longest possible branch below root, and the longest label ("n" + id or id + 1)
+        max_branch = self.time(root) - self.tree_sequence.nodes_time.min()
+        max_label_size = len(str(self.tree_sequence.num_nodes))
+        single_node_size = 4 + max_label_size + len(f"{max_branch:.{precision}f}")
         buffer_size = 1 + single_node_size * self.tree_sequence.num_nodes
         return self._ll_tree.get_newick(
             precision=precision,
